@@ -60,6 +60,8 @@ def _grid_group(args):
 
     def vclass(v):
         """Model-level class of a value: which metacharacters it contains."""
+        if enc:
+            return "sent-as-%s%s" % (enc[0], "" if enc[1] else "-declared-in-the-document-only")
         cs = sorted({c for c in v if c in META})
         if "%" in cs:
             if "%%" in v:
@@ -70,12 +72,15 @@ def _grid_group(args):
     s = None
     try:
         for v in values:
+            enc = None
+            if isinstance(v, tuple):
+                v, enc = v
             if s is None:
                 s = DavSys(cfg)
                 s.replay([])
                 stats["worlds"] += 1
             stats["cases"] += 1
-            info = s.apply(("proppatch", coll, pkey, v), check=False)
+            info = s.apply(("proppatch", coll, pkey, v) + ((enc,) if enc else ()), check=False)
             a = s.last_audit
             if info.get("success"):
                 stats["set_ok"] += 1
@@ -189,6 +194,10 @@ def run(tier, workers=None):
             # split long value lists so that the groups parallelise
             for i in range(0, len(vals), 24):
                 jobs.append((cfg, coll, pkey, vals[i:i + 24]))
+            if vk == "text" and pkey in ("displayname", "comment"):
+                # the same documents in other character encodings (Latin-1 named in the XML declaration with and without the
+                # charset parameter; UTF-16): what arrives is the same text
+                jobs.append((cfg, coll, pkey, [(v, e) for e in (("iso-8859-1", True), ("iso-8859-1", False), ("utf-16", True)) for v in ("\u00e9", "Caf\u00e9 d\u00e9j\u00e0 vu", "plain")]))
     ctx = mp.get_context("fork")
     with ctx.Pool(workers or 16) as pool:
         results = pool.map(_grid_group, jobs, chunksize=1)
@@ -263,5 +272,6 @@ def run(tier, workers=None):
         "a set counts as acknowledged only if the propstat for that property says 200; refusals and 5xx must leave the audit unchanged",
         "';' is not generated for the git-config metadata back end (excluded by the property)",
         "values have no leading/trailing white space and no line breaks",
+        "request bodies are UTF-8; display name and comment are also sent as ISO-8859-1 (declared in the document, with and without a charset parameter) and UTF-16 documents",
         "one history configuration has two workers (second application object with its own store cache on the same directory); both are audited after every request and must agree",
     ])
